@@ -6,7 +6,7 @@
 //
 // input, one case per line:
 //   <I|T> <seed> <rows> <patch> <team size> <slots>
-//   S <cats> <nsyms> { <cat> <f|t|p|q|n> <weight> <nargs> <argcat>... }
+//   S <cats> <nsyms> { <cat> <f|b|t|p|q|n> <weight> <nargs> <argcat>... }
 //   O { N k | M k pgmhex | F k t | X a b k | B k idx cat |
 //       R k idx cat symid parhex nargs args... | D k idx | C k | A k | W k }
 // output, one line per case:
@@ -17,6 +17,7 @@
 #define private public
 #define protected public
 #include "common.h"
+#include "kernel/gp/src/primitive/real.h"
 #undef private
 #undef protected
 
@@ -314,6 +315,8 @@ int main()
         const std::string name("s" + std::to_string(s));
         symbol *p(nullptr);
         if (kind == "f") p = cx.prob.sset.insert(std::make_unique<vfun>(name, cat, ac), weight);
+        // the shipped five-argument primitive FIFB: arguments {c0, c0, c0, c1, c1}, result c1
+        else if (kind == "b") p = cx.prob.sset.insert(std::make_unique<real::ifb>(cvect{ac.at(0), cat}), weight);
         else if (kind == "t") p = cx.prob.sset.insert(std::make_unique<vterm>(name, cat), weight);
         else if (kind == "p") p = cx.prob.sset.insert(std::make_unique<vpar_i>(name, cat), weight);
         else if (kind == "n") p = cx.prob.sset.insert(std::make_unique<vpar_n>(name, cat), weight);
